@@ -209,6 +209,10 @@ func (c *fileConn) QueryContext(ctx context.Context, query string, args []driver
 }
 
 func (stmt *fileStmt) query(values []string) (driver.Rows, error) {
+	if err := checkArgCount(stmt.q, values); err != nil {
+		return nil, err
+	}
+
 	q := queryparser.ReplacePlaceholders(stmt.q, values)
 
 	qq := convert.ToQuery(q)
@@ -247,6 +251,16 @@ func numInput(q *updogv1.Query) int {
 	})
 
 	return int(maxPlaceholder)
+}
+
+// checkArgCount makes sure that every placeholder of the query has an argument.
+// ReplacePlaceholders indexes the argument list with the placeholder numbers.
+func checkArgCount(q *updogv1.Query, values []string) error {
+	if n := numInput(q); len(values) < n {
+		return fmt.Errorf("query uses placeholder $%d, but only %d arguments were provided", n, len(values))
+	}
+
+	return nil
 }
 
 func (stmt *fileStmt) NumInput() int {
@@ -435,6 +449,10 @@ func (stmt *grpcStmt) Query(args []driver.Value) (driver.Rows, error) {
 }
 
 func (stmt *grpcStmt) query(values []string) (driver.Rows, error) {
+	if err := checkArgCount(stmt.q, values); err != nil {
+		return nil, err
+	}
+
 	q := queryparser.ReplacePlaceholders(stmt.q, values)
 
 	result, err := stmt.c.client.Query(context.Background(), &updogv1.QueryRequest{
